@@ -64,7 +64,10 @@ FitOn(p, d, g, data, v) ==
     ELSE Bayes(d, data, v, Pa(g, v), AlphaOf(p, d, v, Pa(g, v)))
 FitAll(p, d, g, data) == [v \in Cols |-> FitOn(p, d, g, data, v)]
 \* n_prev_samples = None means "as many as the new data has rows"
-NPrevEff(np, data2) == IF np = 0 THEN Total(data2) ELSE RInt(np)
+\* (np = -1 encodes an EXPLICIT n_prev_samples = 0: the previous CPDs carry no weight)
+NPrevEff(np, data2) == IF np = 0 THEN Total(data2) ELSE IF np = -1 THEN RZero ELSE RInt(np)
+UpdateDefined(prev, np, d, g, data2) ==
+    \A v \in Cols : BayesDefined(d, data2, v, Pa(g, v), PrevAlpha(prev[v], NPrevEff(np, data2)))
 UpdateAll(prev, np, d, g, data2) ==
     [v \in Cols |-> Bayes(d, data2, v, Pa(g, v), PrevAlpha(prev[v], NPrevEff(np, data2)))]
 
@@ -96,7 +99,8 @@ FitEarlier == /\ res.ph = "init" /\ I.split > 0 /\ I.split < Len(I.rows) /\ IntW
               /\ UNCHANGED <<ii, G, sn>>
 FitUpdate == /\ res.ph = "earlier"
              /\ \E np \in ToSet(I.nprev) :
-                    res' = [ph |-> "done", p |-> [kind |-> "update", x |-> res.p.x, pk |-> res.p.kind, nprev |-> np],
+                    /\ UpdateDefined(res.cpds, np, EDom, G, Part2(Rows, I.split))    \* (a zero prior needs every parent configuration observed)
+                    /\ res' = [ph |-> "done", p |-> [kind |-> "update", x |-> res.p.x, pk |-> res.p.kind, nprev |-> np],
                             prev |-> res.cpds, cpds |-> UpdateAll(res.cpds, np, EDom, G, Part2(Rows, I.split))]
              /\ UNCHANGED <<ii, G, sn>>
 Next == FitMLE \/ FitK2 \/ FitBDeu \/ FitDirScalar \/ FitDirTable \/ FitEarlier \/ FitUpdate
